@@ -517,8 +517,14 @@ def _move_to_dlq_post(ctx):
     commits = [i for i, e in enumerate(ctx.st.effects) if e.kind == "db_commit"]
     if ins and dels:
         a, b = idx[id(dels[0])], idx[id(ins[0])]
-        goals.append(("no-commit-between-delete-and-insert", z3.BoolVal(not [c for c in commits if a < c < b])))
+        goals.append(("no-commit-between-delete-and-insert", z3.BoolVal(not [c for c in commits if min(a, b) < c < max(a, b)])))
         goals.append(("committed-after-insert", z3.BoolVal(any(c > b for c in commits))))
+        # rely/guarantee (one place at every instant, whoever else works on the table): the row is TAKEN -- removed by a
+        # write statement, which holds SQLite's write lock until the commit -- before its copy is written, and the copy is
+        # fed by that statement's RETURNING row, not by an earlier plain read that another worker's ack, claim or sweep can
+        # invalidate in between
+        goals.append(("row-taken-before-its-copy-is-written", z3.BoolVal(a < b)))
+        goals.append(("copy-not-fed-by-a-plain-read", z3.BoolVal(not sql_effects(ctx, "select", QT))))
         k = ins[0].data["key"]
         goals.append(("dlq-row-present", z3.Select(dcur.exists, k)))
         goals.append(("payload-unchanged", z3.Select(dcur.cols["payload"], k) == z3.Select(ent.col("payload"), rid)))
@@ -547,7 +553,9 @@ def _replay_dlq_post(ctx):
     if ins and dels:
         a, b = idx[id(dels[0])], idx[id(ins[0])]
         k = ins[0].data["key"]
-        goals.append(("no-commit-between-delete-and-insert", z3.BoolVal(not [c for c in commits if a < c < b])))
+        goals.append(("no-commit-between-delete-and-insert", z3.BoolVal(not [c for c in commits if min(a, b) < c < max(a, b)])))
+        goals.append(("row-taken-before-its-copy-is-written", z3.BoolVal(a < b)))
+        goals.append(("copy-not-fed-by-a-plain-read", z3.BoolVal(not sql_effects(ctx, "select", DLQ))))
         goals.append(("returns-true", I.ops.truthy(ctx.result)))
         goals.append(("payload-unchanged", z3.Select(cur.cols["payload"], k) == z3.Select(dent.col("payload"), did)))
         goals.append(("type-unchanged", z3.Select(cur.cols["message_type"], k) == z3.Select(dent.col("message_type"), did)))
@@ -578,6 +586,58 @@ def dlq_units():
 
 
 ALL.append(dlq_units)
+
+
+def _expired_sweep_post(ctx):
+    """C08 (a message that keeps failing is dead-lettered at its attempt limit, never dropped): the sweep hands move_to_dlq
+    (contract proved in L1/SqliteDLQ.move_to_dlq) exactly the rows whose attempts reached max_attempts -- every such row, no
+    other row -- and writes nothing itself."""
+    I = ctx.I
+    if ctx.exc is not None:
+        return [("no-exception", FALSE)]
+    ent = entry_table(QT)
+    at_limit = lambda key: z3.And(z3.Select(ent.exists, key), z3.Select(ent.col("attempts"), key) >= z3.Select(ent.col("max_attempts"), key))
+    goals = [("writes-nothing-itself", _frame(ctx, QT)), ("commit-free", z3.BoolVal(not _commits(ctx)))]
+    moves = [(e, g) for e, g in T.flat(ctx.st.effects) if e.kind == "move_to_dlq"]
+    fa = [e for e in ctx.st.effects if e.kind == "sql_fetchall"]
+    goals.append(("one-query", z3.BoolVal(len(fa) == 1)))
+    for n, (e, g) in enumerate(moves):
+        goals.append((f"move{n}.only-rows-at-their-limit", z3.Implies(g, at_limit(I.ops.as_int(e.data["id"])))))
+    if fa:
+        keys = fa[0].data["keys"]
+        arr = I._elem_array(keys.lid, "$v", z3.IntSort())
+        r, i = z3.Int("any_row"), z3.Int("row_i")
+        # every row at its limit is in the result set (fetchall contract) and every element of the result set is moved
+        fe = [e for e in ctx.st.effects if e.kind == "foreach" and e.data["lid"] == keys.lid]
+        covered = z3.BoolVal(False)
+        if fe:
+            f0 = fe[0]
+            body_moves = [b for b in f0.data["body"] if b.kind == "move_to_dlq"]
+            if body_moves:
+                covered = z3.And(f0.data["hi"] == I.ops.list_len(keys), z3.substitute(f0.data["cond"], (f0.data["g"], i)),
+                                 I.ops.as_int(body_moves[0].data["id"]) == z3.Select(arr, f0.data["g"]))
+        goals.append(("every-row-at-its-limit-is-moved", z3.Or(I.ops.list_len(keys) == 0,
+                                                                z3.Implies(z3.And(i >= 0, i < I.ops.list_len(keys)), covered))))
+        goals.append(("the-query-selects-exactly-the-rows-at-their-limit", z3.And(
+            z3.Implies(at_limit(r), fa[0].data["sat"](r)), z3.Implies(fa[0].data["sat"](r), at_limit(r)))))
+        goals.append(("returns-the-number-moved", I.ops.as_int(ctx.result) == I.ops.list_len(keys)))
+    return goals
+
+
+def sweep_units():
+    reg = queue_registry()
+
+    def move(I, a, k):
+        I.st.emit("move_to_dlq", id=a[1], error=a[2] if len(a) > 2 else k.get("error", SNone))
+        return SBool(fresh_bool("moved"))
+
+    reg.contracts["*.move_to_dlq"] = move
+    return [Unit(prop="*", name="L1/SqliteDLQ.check_and_move_expired", func=Q + "dlq:SqliteDLQMixin.check_and_move_expired", params=[],
+                 names=STATUS_NAMES, registry=reg, replayable=False, self_type=make_queue,
+                 obligations=[Obl("C08/expired-sweep", _expired_sweep_post, when="any")])]
+
+
+ALL.append(sweep_units)
 
 
 # ---- AtomicTransaction: push_message, mark_message_processed, acquire_claim, update_workflow_status, rollback_versions
